@@ -196,6 +196,7 @@ func propC10(p *Prog, r *Report) {
 	c10Composition(p, r)
 	c10StreamReader(p, r)
 	c10Gating(p, r)
+	c10ChunkSaved(p, r, "C10.c")
 }
 
 func c10Retry(p *Prog, r *Report) {
